@@ -57,6 +57,20 @@ class TketNotInstalled(Error):
 
 
 @dataclass(frozen=True)
+class PytketIncompleteRegisters(Error):
+    title: ClassVar[str] = "Incomplete circuit registers"
+    span_label: ClassVar[str] = (
+        "Circuit cannot be loaded with array arguments since its {kind} do not form "
+        "complete registers"
+    )
+    kind: str
+
+    @dataclass(frozen=True)
+    class UseFlat(Help):
+        message: ClassVar[str] = "Load the circuit with `use_arrays=False` instead"
+
+
+@dataclass(frozen=True)
 class PytketSignatureMismatch(Error):
     title: ClassVar[str] = "Signature mismatch"
     span_label: ClassVar[str] = "Signature `{name}` doesn't match provided circuit"
